@@ -694,6 +694,9 @@ async fn drive_async<'g>(
     }
 
     let mut roots: Vec<Root<'g>> = specs.iter().map(|_| Root::NotStarted).collect();
+    // lenient regime: one waker object per task for the whole run, as real executors
+    // have (so `Waker::will_wake` shortcuts in the code under test see "same waker")
+    let mut task_wakers: Vec<Option<std::task::Waker>> = specs.iter().map(|_| None).collect();
 
     macro_rules! start_run {
         ($r:expr) => {{
@@ -962,7 +965,7 @@ async fn drive_async<'g>(
         match action {
             Action::Start => start_run!(r),
             Action::Poll => {
-                poll_run(&w, &mut roots, r, built, &mut makespan, coop).await;
+                poll_run(&w, &mut roots, r, built, &mut makespan, coop, &mut task_wakers[r]).await;
             }
             Action::Release(_) | Action::Interrupt | Action::DropSender | Action::DropRef(_) | Action::ForgetRef(_) => {
                 if matches!(action, Action::Interrupt) {
@@ -1132,6 +1135,7 @@ async fn poll_run<'g>(
     built: &Built,
     makespan: &mut [u64],
     coop: bool,
+    task_waker: &mut Option<std::task::Waker>,
 ) {
     let cell = &w.cells[r];
     let spurious = cell.woken.get() == 0;
@@ -1150,7 +1154,12 @@ async fn poll_run<'g>(
         rs.max_polls_since_external = rs.max_polls_since_external.max(rs.polls_since_external);
         rs.self_yields_in_poll = 0;
     }
-    let waker = w.make_waker(r);
+    let waker = if cell.strict.get() {
+        // strict regime: a fresh waker per poll; older ones do not count
+        w.make_waker(r)
+    } else {
+        task_waker.get_or_insert_with(|| w.make_waker(r)).clone()
+    };
     let mut cx = Context::from_waker(&waker);
     if coop {
         let (burn, polls) = {
